@@ -797,6 +797,72 @@ func crossRead(from, to *Msg, variant, only int, dir string) (problems []string)
 			}
 		}
 	}
+	// the same with a LARGE unknown field: the old message carries a 70000-byte field under a small unused tag; the
+	// upgrader writes the field with the highest tag first and merges the rest, so the large field is appended after
+	// it (offsets beyond 64K in an entry that is not the last of the tag-sorted table)
+	if len(tags) > 0 {
+		unknown := uint16(0)
+		for t := uint16(1); t < 250 && unknown == 0; t++ {
+			if !src.HasField(t) {
+				unknown = t
+			}
+		}
+		big := bytes.Repeat([]byte{0xa5}, 70000)
+		big[0], big[len(big)-1] = 0x11, 0x77
+		ow := spec.NewMessageWriter()
+		for _, t := range tags {
+			if err := ow.Field(t).Any(src.Field(t)); err != nil {
+				return append(problems, fmt.Sprintf("%s: old message: %v", dir, err))
+			}
+		}
+		if err := ow.Field(unknown).Bytes(big); err != nil {
+			return append(problems, fmt.Sprintf("%s: old message: %v", dir, err))
+		}
+		ob, err := ow.Build()
+		if err != nil {
+			return append(problems, fmt.Sprintf("%s: old message Build: %v", dir, err))
+		}
+		old, err := spec.OpenMessageErr(append([]byte{}, ob...))
+		if err != nil {
+			return append(problems, fmt.Sprintf("%s: old message does not open: %v", dir, err))
+		}
+		last := tags[len(tags)-1]
+		uw := spec.NewMessageWriter()
+		if err := uw.Field(last).Any(src.Field(last)); err != nil {
+			return append(problems, fmt.Sprintf("%s: upgrade known field: %v", dir, err))
+		}
+		if err := uw.Merge(old); err != nil {
+			return append(problems, fmt.Sprintf("%s: upgrade Merge: %v", dir, err))
+		}
+		ub, err := uw.Build()
+		if err != nil {
+			return append(problems, fmt.Sprintf("%s: upgrade Build: %v", dir, err))
+		}
+		um, err := spec.OpenMessageErr(ub)
+		if err != nil {
+			return append(problems, fmt.Sprintf("%s: upgraded message does not open: %v", dir, err))
+		}
+		if got := um.Bytes(unknown); !bytes.Equal(got, big) {
+			problems = append(problems, fmt.Sprintf("%s: a 70000-byte unknown field (tag %d) merged in after the known field with the highest tag %d is not preserved: got %d bytes", dir, unknown, last, len(got)))
+		}
+		if um.Fields() != len(tags)+1 {
+			problems = append(problems, fmt.Sprintf("%s: upgrade with a large unknown field: %d fields, want %d", dir, um.Fields(), len(tags)+1))
+		}
+		ub2, err := from.Open(um.Raw())
+		if err != nil {
+			problems = append(problems, fmt.Sprintf("%s: original version cannot open the upgraded message with a large unknown field: %v", dir, err))
+		} else {
+			mu := reflect.ValueOf(ub2)
+			for i, f := range from.Fields {
+				if only >= 0 && only != i {
+					continue
+				}
+				if got, exp := readField(mu, f, 0), expectField(f, variant, 0); got != exp {
+					problems = append(problems, fmt.Sprintf("%s: after merging a large unknown field, field %s (tag %d) reads %s, written %s", dir, f.Name, f.Tag, clip(got), clip(exp)))
+				}
+			}
+		}
+	}
 	return
 }
 
